@@ -47,19 +47,35 @@ CHECKS = {
              "model and theorems (it is a rendezvous, not a queue: a slow RPC client stalls connectBlock by design - observation, not judged). "
              "Go memory model taken as atomic interleaving. No axioms."),
     "C17": dict(
-        text="18 theorems (Print Assumptions: closed) about the wrapper logic of snacl.go, for every secretbox/scrypt/sha256 satisfying the named ideal "
-             "laws. Ciphertexts: decrypt after encrypt = id incl. the empty plaintext; any other key, any modification of any single byte of nonce||box "
-             "(hence every bit flip) and every strict truncation give an error (ErrMalformed below 24 bytes, else ErrDecryptFailed), never data; distinct "
-             "nonces give distinct ciphertexts. Passphrases: DeriveKey accepts a passphrase iff it has the creating passphrase's HMAC key block; the "
-             "exact-passphrase clause is proved outside the recorded finding (passphrases of at most 64 bytes not ending in NUL) and refuted inside it by "
-             "a witness theorem. Stored parameters: the 88-byte codec round-trips for all in-range parameters, rejects every other length; after "
-             "Marshal/Unmarshal the same passphrase re-derives the same key; any single-byte change of the 88 bytes makes DeriveKey reject the correct "
-             "passphrase. Tie to the code: real snacl and waddrmgr.Manager.Encrypt/Decrypt run for every bit flip and every truncation length of "
-             "ciphertexts, wrong keys, near-miss passphrases, every bit flip of the 88 marshalled bytes; model evaluated with vm_compute at the same positions.",
-        note="PARTIAL: the strength of secretbox/scrypt/sha256 enters only as hypotheses (exact: open-after-seal, kdf depends on the passphrase through "
-             "the HMAC key block; idealisations: seal binds key/nonce/message, no near or prefix ciphertext opens, kdf/hash injective) - all satisfied "
-             "together by a toy instance (C17_laws_satisfiable); exercised, not proved. Nonce freshness is a hypothesis. Known finding "
-             "hmac_equivalent_passphrase_accepted (inherent to PBKDF2-HMAC, no compatible fix). Observation: a stored r=0 or p=0 makes DeriveKey panic. No axioms."),
+        text="22 theorems (Print Assumptions: closed) about the wrapper logic of snacl.go and of the address manager's passphrase checks, for every "
+             'secretbox/scrypt/sha256 satisfying the named laws, stated at three facts REGENERATED from snacl/snacl.go into Generated/SnaclFacts.v (go/ast '
+             'reader harness/cmd/extract-c17; behavioural probe fallback comparing derived keys with scrypt.Key of the exact passphrase bytes, flipping '
+             'every bit of the stored digest, decrypting tampered ciphertexts): the passphrase bytes reach the KDF unchanged, the WHOLE digest is '
+             'compared, Decrypt fails when secretbox.Open fails; C17_fact_pw_unchanged_needed / C17_fact_full_digest_needed / C17_fact_open_checked_needed '
+             'show each is necessary (they are the models of the mutated code). Ciphertexts: decrypt after encrypt = id incl. the empty plaintext; any '
+             'other key, any modification of any single byte of nonce||box (hence every bit flip) and every strict truncation FAIL with an error (which '
+             'one is neither part of the property nor compared), never data; distinct nonces give distinct ciphertexts. Passphrases: DeriveKey accepts a '
+             "passphrase iff it has the creating passphrase's HMAC key block; the exact-passphrase clause is proved outside the recorded finding "
+             '(passphrases of at most 64 bytes not ending in NUL) and refuted inside it by a witness theorem; C17_manager_passphrase: waddrmgr Open, '
+             "Unlock on a locked manager and the old-passphrase check of ChangePassphrase accept exactly the passphrases with the right one's HMAC block, "
+             'Unlock on an already unlocked manager accepts exactly the private passphrase. Stored parameters: the 88-byte codec round-trips for all '
+             'in-range parameters, rejects every other length; after Marshal/Unmarshal the same passphrase re-derives the same key; any single-byte change '
+             'of the 88 bytes makes DeriveKey reject the correct passphrase. Tie to the code: real snacl and waddrmgr.Manager.Encrypt/Decrypt for every '
+             'bit flip and every truncation length of ciphertexts, wrong keys, every bit flip of the 88 marshalled bytes; a NEAR-MISS passphrase family of '
+             '75 kinds over 30 fixed bases (empty, 1 byte, 63/64/65 bytes, non-ASCII, embedded NUL/CR/LF/space/tab) plus random ones - one flipped bit, '
+             'case changes, each of NUL, space, tab, CR, LF, CRLF appended / prepended / stripped / removed, NFC<->NFD and stripped accents, truncations '
+             'at 8/16/32/64/72 bytes, NUL padding, doubling, SHA-256 of the passphrase, dropped and swapped bytes - at snacl level and through the five '
+             'waddrmgr passphrase operations; an accepted passphrase other than the creating one is the known HMAC finding ONLY if its HMAC key block '
+             "(computed by the harness) equals the creating one's, everything else is wrong_passphrase_accepted; model evaluated with vm_compute at the "
+             'same positions.',
+        note='PARTIAL: the strength of secretbox/scrypt/sha256 enters only as hypotheses (exact: open-after-seal, the kdf depends on the passphrase '
+             'through the HMAC key block; idealisations: seal binds key/nonce/message, no near or prefix ciphertext opens, kdf/hash injective - false for '
+             'the real primitives by counting, satisfied together by a toy instance, C17_laws_satisfiable); they are exercised, not proved; the header of '
+             'Properties/C17.v says per theorem what it rests on (exact laws, idealised laws, wrapper logic, which regenerated fact, correspondence only; '
+             'C17_manager_wrapper restates a definition). Nonce freshness is a hypothesis. Unicode variants use a built-in Latin-1 table. Known finding '
+             'hmac_equivalent_passphrase_accepted (inherent to PBKDF2-HMAC, no compatible fix). The correspondence folds the error classes of rejected '
+             'ciphertexts into one and does not compare key bytes left after a FAILED DeriveKey. Observation: a stored r=0 or p=0 makes DeriveKey panic. '
+             'No axioms.'),
     "C01": dict(
         text='9 theorems. C01_balance_and_spendable_equal_ledger: for every universe, every chain-consistent history, every prefix, every minconf >= 0 and '
              "every sync height >= the highest confirmed block, the model's Balance equals spec_balance (the property's sum over credited, "
